@@ -32,13 +32,19 @@ _CACHE = ("._applied_points", "._iab")
 PWA_KINDS = ("CachedPWA", "PythonPWA", "PiecewiseAffine")
 
 
+_LAST_PWA_COND = [1.0]
+
+
 def pwa_reference(src, tgt, trilist, x):
-    """Barycentric reference: returns (values, outside_mask)."""
+    """Barycentric reference: returns (values, outside_mask). The worst conditioning of a containing triangle's edge
+    matrix is left in _LAST_PWA_COND[0]: in a sliver triangle both the reference and the code under test lose that
+    many digits, and the comparison tolerance has to follow."""
     src = np.asarray(src, dtype=float)
     tgt = np.asarray(tgt, dtype=float)
     x = np.asarray(x, dtype=float)
     out = np.zeros_like(x)
     outside = np.ones(x.shape[0], dtype=bool)
+    _LAST_PWA_COND[0] = 1.0
     for i, p in enumerate(x):
         for tri in trilist:
             a, b, c = src[tri[0]], src[tri[1]], src[tri[2]]
@@ -53,6 +59,7 @@ def pwa_reference(src, tgt, trilist, x):
                 ta, tb, tc_ = tgt[tri[0]], tgt[tri[1]], tgt[tri[2]]
                 out[i] = ta + al * (tb - ta) + be * (tc_ - ta)
                 outside[i] = False
+                _LAST_PWA_COND[0] = max(_LAST_PWA_COND[0], float(np.linalg.cond(m)))
                 break
     return out, outside
 
@@ -160,8 +167,11 @@ def c_history(case, ctx):
             return objs.bary_points(tc["src"], trilist, spec["bary"])
         return gen.arr(spec["xy"])
 
+    ref_tol = [1e-9]
+
     def reference(x):
         """History-free expected output for the CURRENT values of x."""
+        ref_tol[0] = 1e-9
         fresh = _build(tc).apply(np.array(x, dtype=float, copy=True))
         if tc["kind"] in objs.HOMOG_KINDS:
             h = objs.ref_h(tc)
@@ -172,8 +182,11 @@ def c_history(case, ctx):
             return exp, fresh
         if pwa:
             exp, outside = pwa_reference(tc["src"], tc["tgt"], trilist, x)
+            ref_tol[0] = 1e-9 + 1e-12 * _LAST_PWA_COND[0]
+            if _LAST_PWA_COND[0] > 1e3:
+                ctx.event("sliver triangle (edge-matrix condition > 1e3): reference tolerance widened")
             if not outside.any():
-                ctx.expect(close(fresh, exp, atol=1e-9 * (1 + np.abs(exp).max())), "fresh_instance_vs_barycentric_reference", lambda: describe(fresh, exp))
+                ctx.expect(close(fresh, exp, rtol=0, atol=ref_tol[0] * (1 + np.abs(exp).max())), "fresh_instance_vs_barycentric_reference", lambda: describe(fresh, exp))
             return exp, fresh
         return fresh, fresh
 
@@ -187,7 +200,7 @@ def c_history(case, ctx):
             got = t.apply(x, batch_size=batch)
         n_apply += 1
         scale = 1.0 + (float(np.abs(want).max()) if want.size else 0.0)
-        ctx.expect(close(got, want, atol=1e-9 * scale), what, lambda: "step result differs from the history-free reference\n" + describe(got, want))
+        ctx.expect(close(got, want, rtol=0, atol=ref_tol[0] * scale), what, lambda: "step result differs from the history-free reference\n" + describe(got, want))
         if batch is None:
             # the same code on a fresh instance (no history) and the same values: equal to rounding noise, so that
             # even a 1e-12 perturbation of the input must show up in the output
@@ -349,7 +362,12 @@ def c_constrain(case, ctx):
         r = BooleanImage.init_blank(shape).constrain_to_pointcloud(pc, batch_size=k)
         ctx.expect(np.array_equal(r.pixels, base.pixels), "constrain_to_pointcloud.batch_size_changes_mask",
                    "batch_size=%d: %d pixels differ" % (k, int((r.pixels != base.pixels).sum())))
-    # reference: pixel inside the convex hull (half-plane test on the hull), ties excluded
+    # reference: pixel inside the convex hull (half-plane test on the hull), ties excluded. Only for well-shaped clouds:
+    # in a thin cloud the Delaunay triangles are slivers whose barycentric test is decided by rounding (the property
+    # only promises batch-size independence, which was checked above for every cloud)
+    if not gen.non_collinear(pts, 0.2):
+        ctx.event("thin cloud: hull reference not applied")
+        return
     from scipy.spatial import ConvexHull
 
     hull = ConvexHull(pts)
